@@ -25,6 +25,10 @@ Fixpoint pos_popcount (p : positive) : N :=
   end.
 Definition popcount (a : N) : N := match a with N0 => 0 | Npos p => pos_popcount p end.
 
+(* indexing a fixed-size array: out of bounds panics *)
+Definition arr_index {A} (l : list A) (i : N) : outcome A :=
+  match nth_error l (N.to_nat i) with Some x => Ret x | None => Panic end.
+
 (* ASCII helpers of char / u8 *)
 Definition is_ascii_lowercase (c : N) : bool := (97 <=? c) && (c <=? 122).
 Definition is_ascii_uppercase (c : N) : bool := (65 <=? c) && (c <=? 90).
